@@ -158,6 +158,7 @@ class Run:
                        for i, b in enumerate(self.docs)]
         self.factory = store_factory or (lambda: common.make_store(self.root, self.cfg))
         self.store = self.factory()
+        self.stores = {0: self.store}  # op["inst"] selects another instance on the same directory
         self.model = Model(self.cfg)
         self.om = {}  # content index -> ObjectMetadata last returned for it
         self.recs = []
@@ -203,7 +204,10 @@ class Run:
         r.i, r.op, r.skipped, r.extra = len(self.recs), op, False, {}
         r.before = self.alpha
         r.model_before = self.model.copy()
-        m, s, k = self.model, self.store, op["op"]
+        inst = op.get("inst", 0)
+        if inst not in self.stores:
+            self.stores[inst] = self.factory()
+        m, s, k = self.model, self.stores[inst], op["op"]
         if k == "store":
             data = self.contents[op["c"]]
             arg, stream = self.data_arg(op["c"], op.get("kind", "str"), op.get("offset", 0))
@@ -308,7 +312,9 @@ class Run:
         elif k == "reopen":
             r.out = call(self.factory)
             if is_ok(r.out):
-                self.store = r.out[1]
+                self.stores[inst] = r.out[1]
+                if inst == 0:
+                    self.store = r.out[1]
             r.exp = {"ok": "store"}
         else:
             raise ValueError(f"unknown op {op}")
